@@ -17,7 +17,7 @@ RULE = ("correlations: Hypothesis draws a table (n 4..40 rows, 1..5 columns, dya
         "DecisionTreeRegressor(random_state), DummyRegressor}, draws 1..4, minmax and a global seed; the function is called on the "
         "DataFrame and on its array under the same seed. Oracle: square k x k, finite entries in [0,1], min<=mean<=max, frame==array "
         "with the frame's labels on both axes, unit diagonal for LinearRegression, input bytes unchanged. "
-        "r2-comparable: positive targets/predictions x (tr, inv_tr) in {None,'log','exp',callable}^2 x optional weights x one vector / a column / 2-3 outputs with multioutput in {uniform_average, raw_values, variance_weighted}; oracle "
+        "r2-comparable: positive targets/predictions x (tr, inv_tr) in {None,'log','exp',callable (numpy.sqrt, numpy.log, a lambda, user functions that are merely NAMED log / exp)}^2 x optional weights x one vector / a column / 2-3 outputs with multioutput in {uniform_average, raw_values, variance_weighted}; oracle "
         "r2_score(f(y), g(p)) with numpy.log/exp written out; both None must raise ValueError. Non-trivial: >=2 columns and draws>=2; "
         "non-identity pair. Distinct = distinct case JSON.")
 ASSUMPTIONS = ["numeric tables only; at least 4 rows (the function splits the rows in two halves)"]
@@ -144,11 +144,29 @@ def _cor_cases(draw, tier="quick"):
 
 
 # ------------------------------------------------------------------------ r2_score_comparable
+def _user_log():
+    def log(x):                     # a user's helper that happens to be called `log`: it is NOT numpy.log
+        return np.log1p(x)
+    return log
+
+
+def _user_exp():
+    def exp(x):
+        return np.expm1(x) * 0.5
+    return exp
+
+
 def _fn(name):
     if name is None or name in ("log", "exp"):
         return name
     if name == "sqrt":
         return np.sqrt
+    if name == "numpy.log":
+        return np.log
+    if name == "user-log":
+        return _user_log()
+    if name == "user-exp":
+        return _user_exp()
     return lambda x: x * 2.0 + 1.0
 
 
@@ -161,6 +179,12 @@ def _apply(name, v):
         return np.exp(v)
     if name == "sqrt":
         return np.sqrt(v)
+    if name == "numpy.log":
+        return np.log(v)
+    if name == "user-log":
+        return np.log1p(v)
+    if name == "user-exp":
+        return np.expm1(v) * 0.5
     return v * 2.0 + 1.0
 
 
@@ -204,7 +228,7 @@ def _r2_cases(draw, tier="quick"):
     y = draw(st.lists(pos, min_size=n, max_size=n))
     if len(set(y)) == 1:
         y[0] = y[0] + 1.0
-    names = [None, "log", "exp", "sqrt", "affine"]
+    names = [None, "log", "exp", "sqrt", "affine", "numpy.log", "user-log", "user-exp"]
     return dict(y=y, p=draw(st.lists(pos, min_size=n, max_size=n)), tr=draw(st.sampled_from(names)), inv_tr=draw(st.sampled_from(names)),
                 w=draw(st.one_of(st.none(), st.lists(st.integers(1, 16).map(lambda v: v / 4.0), min_size=n, max_size=n))),
                 outputs=k, multioutput=draw(st.sampled_from(["uniform_average", "uniform_average", "raw_values", "variance_weighted"])))
